@@ -229,7 +229,7 @@ double cubic_spline_sample1d (double x, const PyArrayObject* Coef, int mode)
    * pointers as const.
    */
   unsigned int ddim = PyArray_DIM((PyArrayObject*) Coef, 0) - 1;
-  unsigned int offset = PyArray_STRIDE((PyArrayObject*) Coef, 0)/sizeof(double);
+  npy_intp offset = PyArray_STRIDE((PyArrayObject*) Coef, 0)/(npy_intp)sizeof(double);
   const double *coef = PyArray_DATA((PyArrayObject*) Coef);
   const double *buf;
   int nx, px, xx;
@@ -282,8 +282,8 @@ double cubic_spline_sample2d (double x, double y, const PyArrayObject* Coef,
    */
   unsigned int ddimX = PyArray_DIM((PyArrayObject*) Coef, 0) - 1;
   unsigned int ddimY = PyArray_DIM((PyArrayObject*) Coef, 1) - 1;
-  unsigned int offX = PyArray_STRIDE((PyArrayObject*) Coef, 0)/sizeof(double);
-  unsigned int offY = PyArray_STRIDE((PyArrayObject*) Coef, 1)/sizeof(double);
+  npy_intp offX = PyArray_STRIDE((PyArrayObject*) Coef, 0)/(npy_intp)sizeof(double);
+  npy_intp offY = PyArray_STRIDE((PyArrayObject*) Coef, 1)/(npy_intp)sizeof(double);
   const double *coef = PyArray_DATA((PyArrayObject*) Coef);
   const double *buf;
   int nx, ny, px, py, xx, yy;
@@ -292,7 +292,7 @@ double cubic_spline_sample2d (double x, double y, const PyArrayObject* Coef,
   int posx[4], posy[4];
   double *buf_bspx, *buf_bspy;
   int *buf_posx, *buf_posy;
-  int shfty;
+  npy_intp shfty;
   double wx = 1, wy = 1;
 
   APPLY_BOUNDARY_CONDITIONS(mode_x, x, wx, ddimX);
@@ -358,9 +358,9 @@ double cubic_spline_sample3d (double x, double y, double z, const PyArrayObject*
   unsigned int ddimX = PyArray_DIM((PyArrayObject*) Coef, 0) - 1;
   unsigned int ddimY = PyArray_DIM((PyArrayObject*) Coef, 1) - 1;
   unsigned int ddimZ = PyArray_DIM((PyArrayObject*) Coef, 2) - 1;
-  unsigned int offX = PyArray_STRIDE((PyArrayObject*) Coef, 0)/sizeof(double);
-  unsigned int offY = PyArray_STRIDE((PyArrayObject*) Coef, 1)/sizeof(double);
-  unsigned int offZ = PyArray_STRIDE((PyArrayObject*) Coef, 2)/sizeof(double);
+  npy_intp offX = PyArray_STRIDE((PyArrayObject*) Coef, 0)/(npy_intp)sizeof(double);
+  npy_intp offY = PyArray_STRIDE((PyArrayObject*) Coef, 1)/(npy_intp)sizeof(double);
+  npy_intp offZ = PyArray_STRIDE((PyArrayObject*) Coef, 2)/(npy_intp)sizeof(double);
   const double *coef = PyArray_DATA((PyArrayObject*) Coef);
   const double *buf;
   int nx, ny, nz, px, py, pz;
@@ -370,7 +370,7 @@ double cubic_spline_sample3d (double x, double y, double z, const PyArrayObject*
   int posx[4], posy[4], posz[4];
   double *buf_bspx, *buf_bspy, *buf_bspz;
   int *buf_posx, *buf_posy, *buf_posz;
-  int shftyz, shftz;
+  npy_intp shftyz, shftz;
   double wx = 1, wy = 1, wz = 1;
 
   APPLY_BOUNDARY_CONDITIONS(mode_x, x, wx, ddimX);
@@ -456,10 +456,10 @@ double cubic_spline_sample4d (double x, double y, double z, double t, const PyAr
   unsigned int ddimY = PyArray_DIM((PyArrayObject*) Coef, 1) - 1;
   unsigned int ddimZ = PyArray_DIM((PyArrayObject*) Coef, 2) - 1;
   unsigned int ddimT = PyArray_DIM((PyArrayObject*) Coef, 3) - 1;
-  unsigned int offX = PyArray_STRIDE((PyArrayObject*) Coef, 0)/sizeof(double);
-  unsigned int offY = PyArray_STRIDE((PyArrayObject*) Coef, 1)/sizeof(double);
-  unsigned int offZ = PyArray_STRIDE((PyArrayObject*) Coef, 2)/sizeof(double);
-  unsigned int offT = PyArray_STRIDE((PyArrayObject*) Coef, 3)/sizeof(double);
+  npy_intp offX = PyArray_STRIDE((PyArrayObject*) Coef, 0)/(npy_intp)sizeof(double);
+  npy_intp offY = PyArray_STRIDE((PyArrayObject*) Coef, 1)/(npy_intp)sizeof(double);
+  npy_intp offZ = PyArray_STRIDE((PyArrayObject*) Coef, 2)/(npy_intp)sizeof(double);
+  npy_intp offT = PyArray_STRIDE((PyArrayObject*) Coef, 3)/(npy_intp)sizeof(double);
   const double *coef = PyArray_DATA((PyArrayObject*) Coef);
   const double *buf;
   int nx, ny, nz, nt, px, py, pz, pt;
@@ -469,7 +469,7 @@ double cubic_spline_sample4d (double x, double y, double z, double t, const PyAr
   int posx[4], posy[4], posz[4], post[4];
   double *buf_bspx, *buf_bspy, *buf_bspz, *buf_bspt;
   int *buf_posx, *buf_posy, *buf_posz, *buf_post;
-  int shftyzt, shftzt, shftt;
+  npy_intp shftyzt, shftzt, shftt;
   double wx = 1, wy = 1, wz = 1, wt = 1;
 
   APPLY_BOUNDARY_CONDITIONS(mode_x, x, wx, ddimX);
@@ -638,17 +638,21 @@ static inline void _apply_affine_transform(double* Tx, double* Ty, double* Tz,
 
 /*
    Convert an input grid coordinate x into another grid coordinate
-   within [0, ddim], possibly using a reflection. This function
-   implicitly assumes that -ddim < x < 2*ddim
+   within [0, ddim] by mirror (whole-sample symmetric) extension, for
+   any x
  */
 static inline int _mirrored_position(int x, unsigned int ddim)
 {
+  int period = 2 * (int)ddim;
+
+  if (ddim == 0)
+    return 0;
+  x = x % period;
   if (x < 0)
-    return -x;
-  else if (x > ddim)
-    return 2 * ddim - x;
-  else
-    return x;
+    x += period;
+  if (x > (int)ddim)
+    return period - x;
+  return x;
 }
 
 /*
@@ -701,7 +705,7 @@ static inline int _mirror_grid_neighbors(double x, unsigned int ddim,
 {
   int ok = 0;
   *px = (int)(x+ddim+2);
-  if ((*px>=3) && (*px<=3*ddim)) {
+  if ((*px>=2) && (*px<=3*(int)ddim+2)) {
     ok = 1;
     *px = *px-ddim;
     *nx = *px-3;
